@@ -9,6 +9,7 @@ package opshell
 // it is armed and due.  Steps are atomic because every real step takes the shell's write lock.
 
 import (
+	"context"
 	"os"
 
 	"github.com/magisterquis/goxterm"
@@ -93,7 +94,8 @@ const pauseNS = int64(PlainWritePause)
 func HarnessC19Steps() {
 	k := verifParam("k")
 	termOut = nil
-	s, cleanup, err := New(make(chan string, 1), make(chan CLine, 1), "> ", true, nil, "")
+	och := make(chan CLine, 1)
+	s, cleanup, err := New(make(chan string, 1), och, "> ", true, nil, "")
 	verifAssert(err == nil && s != nil && cleanup != nil, "C19.new-ok")
 	if err != nil {
 		return
@@ -103,6 +105,15 @@ func HarnessC19Steps() {
 	verifFireTimer(0)
 	verifQuiesce()
 	verifAssert(!s.silenced && len(termOut) == 0, "C19.init.first-fire-does-nothing")
+	// lines reach the terminal the way they do in the program: through handleOutput's dispatch
+	via := verifParam("via") // 1: lines go through handleOutput's dispatch; 0: writePlain / Logf are called directly
+	hctx, hcancel := context.WithCancel(context.Background())
+	if via == 1 {
+		go func() {
+			verifActor()
+			s.handleOutput(hctx)
+		}()
+	}
 	ctrlO := 0
 	var lastSuppressed int64 // clock value at the last suppressed (or muting) plain write
 	for step := 0; step < k; step++ {
@@ -124,8 +135,13 @@ func HarnessC19Steps() {
 			verifAssert(len(termOut) == n0+1, "C19.ctrl-o-is-announced")
 		case 1: // plain shell output
 			b := nondetString(2)
-			err := s.writePlain(b)
-			verifAssert(err == nil, "C19.plain-write-ok")
+			verifAssume(b != "")
+			if via == 1 {
+				och <- CLine{Line: b, Plain: true}
+				verifQuiesce()
+			} else {
+				verifAssert(s.writePlain(b) == nil, "C19.plain-write-ok")
+			}
 			if wasMuted {
 				verifAssert(len(termOut) == n0, "C19.muted-output-not-written")
 				lastSuppressed = now
@@ -137,8 +153,14 @@ func HarnessC19Steps() {
 			}
 		case 2: // status / log line
 			line := nondetString(2)
-			_, err := s.Logf(ColorNone, true, "%s", line)
-			verifAssert(err == nil, "C19.logf-ok")
+			if via == 1 {
+				// a notice from another subsystem, delivered over the output channel
+				och <- CLine{Line: line, NoTimestamp: nondetBool()}
+				verifQuiesce()
+			} else {
+				_, err := s.Logf(ColorNone, true, "%s", line)
+				verifAssert(err == nil, "C19.logf-ok")
+			}
 			want := line
 			if len(want) == 0 || want[len(want)-1] != '\n' {
 				want += "\n"
@@ -179,5 +201,7 @@ func HarnessC19Steps() {
 			}
 		}
 	}
+	hcancel()
+	verifQuiesce()
 	verifReach("C19.steps.end")
 }
